@@ -372,6 +372,15 @@ func (d *deepView) resolve(v ssa.Value, fr *frame) dval {
 		case *ssa.ChangeType:
 			// keep named-type conversions transparent only for identity of slices/strings
 			return dval{v, fr}
+		case *ssa.Index:
+			// element, at a known index, of a local array literal that is read by value
+			if ld, isLd := x.X.(*ssa.UnOp); isLd && ld.Op == token.MUL {
+				if el, ok := d.literalElemOfLoad(ld, x.Index, fr); ok {
+					v, fr = el.v, el.fr
+					continue
+				}
+			}
+			return dval{v, fr}
 		case *ssa.Field:
 			// field of a struct value (a by-value receiver/parameter copy of a locally built struct)
 			if d.throughFields && depth < 30 {
@@ -459,6 +468,50 @@ func (d *deepView) literalElem(ia *ssa.IndexAddr, fr *frame) (dval, bool) {
 					}
 				}
 			}
+		}
+	}
+	if n != 1 {
+		return dval{}, false
+	}
+	return dval{out, afr}, true
+}
+
+// literalElemOfLoad: the value stored at a known index of a local array literal,
+// seen through a load of the whole array (the copy a range-by-value loop indexes):
+// the one store to that element, made before the array is loaded.
+func (d *deepView) literalElemOfLoad(ld *ssa.UnOp, index ssa.Value, fr *frame) (dval, bool) {
+	k, ok := d.indexOf(index)
+	if !ok {
+		return dval{}, false
+	}
+	a, afr, ok := d.literalArray(ld.X, fr)
+	if !ok || afr != fr {
+		return dval{}, false
+	}
+	var out ssa.Value
+	n := 0
+	for _, r := range *a.Referrers() {
+		switch y := r.(type) {
+		case *ssa.IndexAddr:
+			k2, isK := ir.ConstInt(y.Index)
+			if !isK {
+				return dval{}, false // written (or handed out) at an index that is not known
+			}
+			for _, rr := range *y.Referrers() {
+				st, isSt := rr.(*ssa.Store)
+				if !isSt || st.Addr != ssa.Value(y) {
+					return dval{}, false
+				}
+				if !(st.Block() == ld.Block() && precedes(st, ld) || st.Block() != ld.Block() && st.Block().Dominates(ld.Block())) {
+					return dval{}, false
+				}
+				if k2 == k {
+					out, n = st.Val, n+1
+				}
+			}
+		case *ssa.UnOp, *ssa.DebugRef:
+		default:
+			return dval{}, false
 		}
 	}
 	if n != 1 {
@@ -603,6 +656,15 @@ func uniqueResult(fn *ssa.Function, idx int) ssa.Value {
 			return nil
 		}
 		v := r.Results[idx]
+		// a function with deferred calls returns through result cells: the value is
+		// what the return statement stored; the exit taken after a recovered panic
+		// yields the cell as it stands (unset, or one of those values)
+		if len(r.Results) == fn.Signature.Results().Len() {
+			if recoverExitOnly(fn, r, idx) && len(rets) > 1 {
+				continue
+			}
+			v = effectiveResult(fn, r, idx)
+		}
 		if k, ok := v.(*ssa.Const); ok && (k.Value == nil || k.IsNil()) && len(rets) > 1 {
 			continue
 		}
@@ -877,6 +939,23 @@ func (d *deepView) binaryWrites() []deepWrite {
 		add(data, di.fr)
 	}
 	return out
+}
+
+// fieldIDOfDeep is fieldIDOf for a value of the view: *p where the pointer p
+// was handed in by a caller (a parameter, a closure variable, a helper result)
+// that loaded it from a struct field is that field.
+func (d *deepView) fieldIDOfDeep(r dval) string {
+	if id := fieldIDOf(r.v); id != "" {
+		return id
+	}
+	if ld, ok := ir.StripConv(r.v).(*ssa.UnOp); ok && ld.Op == token.MUL {
+		if in := d.resolve(ld.X, r.fr); in.v != ld.X || in.fr != r.fr {
+			if inner, ok := ir.StripConv(in.v).(*ssa.UnOp); ok && inner.Op == token.MUL {
+				return ir.FieldID(inner.X)
+			}
+		}
+	}
+	return ""
 }
 
 // fieldIDOf: the struct field a (resolved) value is loaded from ("" if none).
